@@ -270,6 +270,10 @@ class BaseObject(object):
     def endSelfNotificationObservation(self):
         self.removeObserver(self, notification=None)
         self._dispatcher = None
+        # nothing can destroy the stored representations
+        # from here on, so they must not be kept.
+        if self._representations:
+            self._representations.clear()
 
     def selfNotificationCallback(self, notification):
         self._destroyRepresentationsForNotification(notification)
